@@ -194,7 +194,11 @@ impl IoLoop {
         Ok(IoLoop {
             poll,
             frame_buffer: FrameBuffer::new(),
-            inner: Inner::new(heartbeats, tuning.mem_channel_bound),
+            inner: Inner::new(
+                heartbeats,
+                tuning.mem_channel_bound,
+                tuning.buffered_writes_high_water,
+            ),
             frames_after_handshake: Vec::new(),
             handshake_progress: 0,
             buffered_writes_high_water: tuning.buffered_writes_high_water,
@@ -803,7 +807,16 @@ impl IoLoop {
                 debug!("returned below low water mark for buffered writes; resuming channels",);
                 self.inner.reregister_nonzero_channels(&self.poll)?;
                 listening_to_channels = true;
+            } else if listening_to_channels && self.inner.left_channel_undrained {
+                // A channel was left with messages in it at the high water mark, and we
+                // are below the mark again already (data was written later in the same
+                // pass): nothing would tell us about those messages. Reregistering
+                // reports every channel that has some.
+                self.inner.reregister_nonzero_channels(&self.poll)?;
             }
+            // (in the other cases the channels are not listened to now, and are
+            // reregistered when they are again)
+            self.inner.left_channel_undrained = false;
 
             // If we have data to write, reregister for readable|writable. This may be a
             // spurious reregistration, but also may not - if we wrote all the data we have
@@ -869,16 +882,30 @@ struct Inner {
 
     // If true, non-0 channels are registered with mio. (Channel 0 is always registered.)
     channels_are_registered: bool,
+
+    // Once this much data is waiting to be written, nothing more is taken from non-0
+    // channels (see run_io_loop, which stops listening to them at the same mark).
+    buffered_writes_high_water: usize,
+
+    // Set when a non-0 channel was left with messages in it because of that. Its
+    // edge-triggered registration will not tell us about them again by itself.
+    left_channel_undrained: bool,
 }
 
 impl Inner {
-    fn new(heartbeats: HeartbeatTimers, mio_channel_bound: usize) -> Self {
+    fn new(
+        heartbeats: HeartbeatTimers,
+        mio_channel_bound: usize,
+        buffered_writes_high_water: usize,
+    ) -> Self {
         Inner {
             outbuf: SealableOutputBuffer::new(OutputBuffer::empty()),
             heartbeats,
             chan_slots: ChannelSlots::new(),
             mio_channel_bound,
             channels_are_registered: true,
+            buffered_writes_high_water,
+            left_channel_undrained: false,
         }
     }
 
@@ -991,7 +1018,19 @@ impl Inner {
     }
 
     fn handle_channel_readable(&mut self, channel_id: u16) -> Result<()> {
+        // A publisher can hand us messages as fast as we take them: without a bound we
+        // would never leave this loop - never get to stop listening to the channels, to
+        // write, to look at the timers - while the data waiting to be written grows and
+        // grows. (Channel 0 is not subject to back-pressure.)
+        self.drain_channel(channel_id, channel_id != 0)
+    }
+
+    fn drain_channel(&mut self, channel_id: u16, up_to_high_water: bool) -> Result<()> {
         loop {
+            if up_to_high_water && self.outbuf.len() > self.buffered_writes_high_water {
+                self.left_channel_undrained = true;
+                return Ok(());
+            }
             let slot = match self.chan_slots.get(channel_id) {
                 Some(slot) => slot,
                 None => {
@@ -1021,7 +1060,7 @@ impl Inner {
                 // them, or when the close simply gets here first.
                 let ids: Vec<u16> = self.chan_slots.iter().map(|(id, _)| *id).collect();
                 for id in ids {
-                    self.handle_channel_readable(id)?;
+                    self.drain_channel(id, false)?;
                 }
                 self.outbuf.append(buf);
                 self.seal_writes();
